@@ -20,6 +20,11 @@ fn main() {
         eprintln!("usage: verif-harness <Cxx> [--tier quick|thorough] [--seed N] ...");
         std::process::exit(2);
     }
+    if std::env::var_os("VERIF_VERBOSE_PANICS").is_none() {
+        // Monitors catch panics and report them as violations with the message; the default
+        // hook's stderr spam (thousands of lines under mutation) is only noise.
+        std::panic::set_hook(Box::new(|_| {}));
+    }
     if args[0] == "child" {
         std::process::exit(checks::child_main(&args[1..]));
     }
